@@ -229,7 +229,7 @@ def observe(fn, rasters, base_arrays):
             after["values"], after["dtype"], after["flags"] = s["values"], s["dtype"], s["flags"]
         if fn.identity == "dtypewiden" and i == 0 and after["dtype"] != s["dtype"]:
             # viewshed may widen the input's dtype without changing a value
-            if np.array_equal(after["values"].astype(np.float64), s["values"].astype(np.float64)) and \
+            if np.array_equal(after["values"].astype(np.float64), s["values"].astype(np.float64), equal_nan=True) and \
                     np.can_cast(s["dtype"], after["dtype"], "safe"):
                 after["values"], after["dtype"], after["flags"] = s["values"], s["dtype"], s["flags"]
         return after
